@@ -314,6 +314,9 @@ def ob_simple_filters(chk, P, maxlen):
                             ascii_only = [z3.ULT(c, 128) for c in list(cs) + [x for a in argv for x in a]]
                             m2 = ob.decide(ex, s2.conds + ascii_only, z3.Not(post))
                             mm = m2 if m2 is not None else m
+                            if m2 is None:      # prefer a Latin-1 witness (case mapping is exact there) to one that rests on the uninterpreted part
+                                m3 = ob.decide(ex, s2.conds + [z3.And(z3.ULT(c, 0x100), c != 0xDF) for c in list(cs) + [x for a in argv for x in a]], z3.Not(post))
+                                if m3 is not None: mm = m3
                             got = ''.join(chr(mm.eval(ch_expr(c), model_completion=True).as_long()) for c in res)
                             report(f'{name}/wrong-result' + ('' if m2 is not None else '/only-with-non-ascii'), f'{name} returns {got!r}', mm)
                 ob.sample({'len': n})
@@ -375,53 +378,110 @@ def ob_size(chk, P, maxlen):
         ob.absorb(ex)
 
 
+def ob_default(chk, P, maxlen):
+    with chk.obligation('default/values', 'default returns its argument exactly when the input is nil, false, the empty string or an empty array, and the input unchanged otherwise -- '
+                        'in particular a whitespace-only string, 0 and true are kept',
+                        {'input': f'nil | any bool | any i64 | a string of 0..{maxlen} characters (each any Unicode scalar value) | an array of 0..2 elements', 'argument': 'abstract value'}) as ob:
+        ex = Executor(P, models_with([])); ex.seed = chk.seed
+        fn = P.find_method('DefaultFilter', 'evaluate', 'Filter', 'lib')
+        b = z3.Bool('in_b'); iv = z3.BitVec('in_i', 64)
+        inputs = [('nil', lambda st: (VALUE_NIL, [])), ('bool', lambda st: (value_scalar(scalar_bool(Bool(b))), [])), ('int', lambda st: (value_scalar(scalar_int(Int(iv, 'i64'))), []))]
+        for n in range(maxlen + 1):
+            inputs.append((f'str{n}', lambda st, n=n: (lambda cs: (str_value(cs), cs))(sym_string(st, n))))
+        for n in range(3):
+            inputs.append((f'array{n}', lambda st, n=n: (Adt('Value', 'Array', [VecV([value_scalar(scalar_int(Int(z3.BitVec(f'el{i}', 64), 'i64'))) for i in range(n)])]), [])))
+        for name, mk in inputs:
+            st = State()
+            inp, cs = mk(st)
+            args = Adt('DefaultArgs', None, [expr_stub(Abs('token', found_handler, ('DEFAULT',)), 'default')], ['default'])
+            for s2, kind, val in ex.run(fn, [st.ref(Adt('DefaultFilter', None, [args], ['args'])), st.ref(inp), st.ref(Opaque(('RT',)))], st):
+                ob.paths += 1; ob.reached()
+                def report(role, what, m):
+                    if name.startswith('str'): v = model_string(m, cs)
+                    elif name == 'bool': v = z3.is_true(m.eval(b, model_completion=True))
+                    elif name == 'int': v = m.eval(iv, model_completion=True).as_signed_long()
+                    elif name == 'nil': v = None
+                    else: v = [0] * int(name[5:])
+                    keep = not (v is None or v is False or v == '' or v == [])
+                    exp = ('[' + (('true' if v is True else str(v)) if not isinstance(v, list) else ''.join(map(str, v))) + ']') if keep else '[D]'
+                    ob.violation(role, f'{what}: input {v!r}', {'input': repr(v)}, {'kind': 'template', 'template': "[{{ v | default: 'D' }}]", 'globals': {'v': v}},
+                                 lambda r, e=exp: r.get('outcome') != 'ok' or r.get('output') != e)
+                if kind != 'ret' or val.variant != 'Ok':
+                    report('default/fails', f'default ends with {kind} {val}', ob.decide(ex, s2.conds, z3.BoolVal(True))); continue
+                out = s2.deref_all(val.items[0])
+                is_default = value_token(out) == ('DEFAULT',)
+                if name == 'nil': want_default = z3.BoolVal(True)
+                elif name == 'bool': want_default = z3.Not(b)
+                elif name == 'int': want_default = z3.BoolVal(False)
+                elif name.startswith('str'): want_default = z3.BoolVal(len(cs) == 0)
+                else: want_default = z3.BoolVal(name == 'array0')
+                m = ob.decide(ex, s2.conds, z3.Not(want_default) if is_default else want_default)
+                if m is not None:
+                    m2 = ob.decide(ex, s2.conds + [z3.ULT(c, 128) for c in cs], z3.Not(want_default) if is_default else want_default) if cs else None
+                    report('default/' + ('replaced-a-present-value' if is_default else 'kept-an-absent-value'), f'default returns {"its argument" if is_default else "the input"}', m2 if m2 is not None else m); continue
+                if not is_default and name.startswith('str'):
+                    res = result_string(s2, val)
+                    m = ob.decide(ex, s2.conds, z3.Not(eq_chars(res, list(cs))) if res is not None else z3.BoolVal(True))
+                    if m is not None: report('default/changed-the-input', f'default returns {val}', m)
+            ob.sample({'input': name})
+        ob.absorb(ex)
+
+
+def token_of(v):
+    return value_token(v)
+
+
 def ob_filter_chain(chk, P):
     with chk.obligation('FilterChain::evaluate/composition', 'the value of `entry | f1 | f2 | ...` is fn(...f2(f1(entry))): every filter receives exactly the previous result, in order; '
                         'the first failing filter (or a failing entry) ends the evaluation with its error',
-                        {'filters': '0..4 abstract filters (each Ok or Err)', 'entry': 'abstract value, may fail'}) as ob:
+                        {'filters': '0..4 abstract filters (each Err, Ok(nil) or Ok(a fresh value))', 'entry': 'abstract value, may fail'}) as ob:
         from mirsym.models import core as _core
         ex = Executor(P, models_with([])); ex.seed = chk.seed
         fn = P.find_method('FilterChain', 'evaluate', None, 'core')
         def mk_filter(i):
-            errs = z3.Bool(f'f{i}_errs')
+            errs = z3.Bool(f'f{i}_errs'); nils = z3.Bool(f'f{i}_nil')
             def h(ctx, me, args, st):
                 m = method_of(ctx.callee)
                 if m != 'evaluate': return None
                 inp = st.deref_all(args[1])
-                tok = value_token(inp) if isinstance(inp, (Opaque, Abs)) else repr(inp)
+                tok = token_of(inp)
                 log_call(st, 'filter', (i, tok))
                 def g():
                     for s2, e in ctx.ex.fork_bool(st, errs):
-                        if e: yield s2, 'ret', Err(Adt('LiquidError', None, [Opaque(('msg', f'filter {i}'))]))
-                        else: yield s2, 'ret', Ok(Abs('token', found_handler, ('F', i, tok)))
+                        if e:
+                            yield s2, 'ret', Err(Adt('LiquidError', None, [Opaque(('msg', f'filter {i}'))])); continue
+                        for s3, nl in ctx.ex.fork_bool(s2, nils):      # a filter may legitimately produce nil (first of an empty array): the chain goes on
+                            if nl: yield s3, 'ret', Ok(VALUE_NIL)
+                            else: yield s3, 'ret', Ok(Abs('token', found_handler, ('F', i, tok)))
                 return g()
-            return Abs(f'filter{i}', h), errs
+            return Abs(f'filter{i}', h), errs, nils
         for k in range(0, 5):
             st = State()
             fs = [mk_filter(i) for i in range(k)]
             entry = expr_stub(Abs('token', found_handler, ('ENTRY',)), 'entry', True)
-            self_ = st.ref(Adt('FilterChain', None, [entry, VecV([st.ref(f, True) for f, _ in fs])], ['entry', 'filters']))
+            self_ = st.ref(Adt('FilterChain', None, [entry, VecV([st.ref(f[0], True) for f in fs])], ['entry', 'filters']))
             for s2, kind, val in ex.run(fn, [self_, st.ref(Opaque(('RT',)))], st):
                 ob.paths += 1; ob.reached()
                 m = ob.decide(ex, s2.conds, z3.BoolVal(True))
                 entry_err = z3.is_true(m.eval(z3.Bool('entry_errs'), model_completion=True))
-                ferr = [z3.is_true(m.eval(e, model_completion=True)) for _, e in fs]
+                ferr = [z3.is_true(m.eval(f[1], model_completion=True)) for f in fs]
+                fnil = [z3.is_true(m.eval(f[2], model_completion=True)) for f in fs]
                 seen = [c[1] for c in calls(s2, 'filter')]
                 want_calls = []; tok = ('ENTRY',); failed = entry_err
                 if not entry_err:
                     for i in range(k):
                         want_calls.append((i, tok))
                         if ferr[i]: failed = True; break
-                        tok = ('F', i, tok)
+                        tok = token_of(VALUE_NIL) if fnil[i] else ('F', i, tok)
                 bad = None
                 if kind == 'panic': bad = f'panics: {val}'
                 elif seen != want_calls: bad = f'filters were called as {seen}, expected {want_calls}'
                 elif failed != (val.variant == 'Err'): bad = f'result {val.variant} but a step failed={failed}'
-                elif not failed and value_token(s2.deref_all(val.items[0])) != tok: bad = f'result {val.items[0]!r}, expected {tok}'
+                elif not failed and value_token_st(s2, val.items[0]) != tok: bad = f'result {val.items[0]!r}, expected {tok}'
                 if bad:
                     sc = {'kind': 'template', 'template': "[{{ ' aXb ' | strip | downcase | append: '!' | replace: 'x', 'yy' | upcase }}][{{ 'a,b' | split: ',' | first | append: nope.x | upcase }}]", '_e': None}
-                    ob.violation('FilterChain/composition', f'chain of {k} filters: {bad}', {'filters': k}, {'kind': 'template', 'template': "[{{ ' aXb ' | strip | downcase | append: '!' | replace: 'x', 'yy' | upcase }}]"},
-                                 lambda r: r.get('output') != '[AYYB!]')
+                    ob.violation('FilterChain/composition', f'chain of {k} filters: {bad}', {'filters': k}, {'kind': 'template', 'template': "[{{ ' aXb ' | strip | downcase | append: '!' | replace: 'x', 'yy' | upcase }}][{{ e | first | default: 'none' | upcase }}]", 'globals': {'e': []}},
+                                 lambda r: r.get('output') != '[AYYB!][NONE]')
             ob.sample({'filters': k})
         ob.absorb(ex)
 
@@ -432,4 +492,5 @@ def run(chk):
     ob_truncate(chk, P, 3 if chk.tier == 'quick' else 4)
     ob_simple_filters(chk, P, 3 if chk.tier == 'quick' else 4)
     ob_size(chk, P, 3)
+    ob_default(chk, P, 3)
     ob_filter_chain(chk, P)
